@@ -40,8 +40,34 @@ def impl():
     return U
 
 
+def harvested_literals() -> T.List[str]:
+    """Short string constants that occur in the CURRENT source of the anchored functions. A special case keyed on a
+    particular version text (a magic word) necessarily names that text in the code, so it ends up in the pool."""
+    import ast
+    import inspect
+    import textwrap
+    from .common import pin_hash  # noqa: F401  (same resolution rules as the pins)
+    import importlib
+    out: T.Set[str] = set()
+    for spec in PINS:
+        modname, qual = spec.split(':')
+        try:
+            obj: T.Any = importlib.import_module(modname)
+            for part in qual.split('.'):
+                obj = getattr(obj, part)
+            tree = ast.parse(textwrap.dedent(inspect.getsource(inspect.unwrap(obj) if callable(obj) else obj)))
+        except Exception:
+            continue
+        for n in ast.walk(tree):
+            if isinstance(n, ast.Constant) and isinstance(n.value, str) and 0 < len(n.value) <= 16 and '\n' not in n.value:
+                out.add(n.value)
+                out.add(n.value.strip())
+    return sorted(x for x in out if x)
+
+
 def small_versions() -> T.List[str]:
     out = list(COMPONENTS)
+    out += harvested_literals()
     for a in COMPONENTS:
         for s in SEPS:
             for b in COMPONENTS:
